@@ -335,7 +335,7 @@ def gen_migrate(rng, big=False, self_suspend=False):
     for _ in range(rng.randint(1, 4 if big else 2)):
         src = rng.choice(sched_pools)
         dst = rng.choice([p for p in sched_pools if p != src])
-        how = rng.choice(["ext", "self", "twice", "auto", "reject_same"]) if not self_suspend else "self_suspend"
+        how = rng.choice(["ext", "self", "twice", "auto", "reject_same", "again"]) if not self_suspend else "self_suspend"
         if how == "ext":
             t = s.unit("U", "N", src, ["Y"] * rng.randint(4, 10))
             s.main += ["C%d" % t, "M%d:%d" % (t, dst), "F%d" % t]
@@ -350,6 +350,11 @@ def gen_migrate(rng, big=False, self_suspend=False):
         elif how == "reject_same":
             t = s.unit("U", "N", src, ["Y"] * 3)
             s.main += ["C%d" % t, "M%d:%d" % (t, src), "F%d" % t]
+        elif how == "again":
+            # migrated to dst, finished, revived into its first pool, then asked to migrate to dst once more: the
+            # second request names the target of the first one and must be performed all the same
+            t = s.unit("U", "N", src, ["Y"] * rng.randint(3, 6))
+            s.main += ["C%d" % t, "M%d:%d" % (t, dst), "J%d" % t, "V%d" % t, "M%d:%d" % (t, dst), "J%d" % t, "p%d" % t, "F%d" % t]
         elif how == "twice":
             t = s.unit("U", "N", src, [])
             s.units[t][3] = ["M%d:%d" % (t, dst), "Y", "M%d:%d" % (t, src), "Y", "W"]
